@@ -201,7 +201,14 @@ Definition set_idx (st : mstate) (i : nat) (v : value) : mstate :=
 
 (* set_global (by name; the module loader's export registration, host API) *)
 Definition set_name (st : mstate) (n : N) (v : value) : mstate :=
-  upd_views st ((n, v) :: gmap st) (gidx st) (cur st) [].
+  (* 8825c3e: the slot of the LOADED layout that holds this name, if any, is written too *)
+  let g := if SET_GLOBAL_WRITES_LOADED_SLOT then
+             match pos_of n (cur st) with
+             | Some i => if (i <? length (gidx st))%nat then set_at i v (gidx st) else gidx st
+             | None => gidx st
+             end
+           else gidx st in
+  upd_views st ((n, v) :: gmap st) g (cur st) [].
 
 (* sync_loaded_globals / sync_globals_to_hashmap(names of the loaded unit) *)
 Definition sync_loaded (st : mstate) : mstate :=
@@ -328,12 +335,15 @@ Fixpoint exec_m (fuel : nat) (Lf : layout) (arg : value) (st : mstate) (body : l
 (* ---- the driver loop (driver/src/api/repl.rs) and host calls ------------------------------------- *)
 (* a module loaded by `needs`: its top-level unit, and the by-name registration of its exports
    (alias := value of name) *)
-Record munit := mkMU { mu_layout : layout; mu_body : list instr; mu_exports : list (N * N) }.
+(* mu_run = false: the module was loaded by an earlier input of the session (the loader's memo lives as
+   long as the session, 6a174a4): its top level does not run again, only the exports are registered *)
+Record munit := mkMU { mu_run : bool; mu_layout : layout; mu_body : list instr; mu_exports : list (N * N) }.
 
 Inductive step :=
 | SInput (imports : list munit) (compiles : bool) (L : layout) (body : list instr)
          (newmut : list (N * bool)) (imported : list N)
-| SHost (n : N) (nargs : N) (arg : value).
+| SHost (n : N) (nargs : N) (arg : value)
+| SSet (n : N) (v : value).                      (* the host binds a global by name: VM::set_global *)
 
 Record dstate := mkD { d_vm : mstate; d_known : list N; d_mut : list (N * bool) }.
 Record xstate := mkX { x_s : sstate; x_taint : list N; x_known : list N; x_mut : list (N * bool) }.
@@ -353,11 +363,11 @@ Fixpoint load_modules (fuel : nat) (vm : mstate) (ms : list munit) : mstate * li
   match ms with
   | [] => (vm, [], SOk)
   | m :: r =>
-      let '(vm1, out, s) := run_unit fuel vm (mu_layout m) (mu_body m) in
+      let '(vm1, out, s) := if mu_run m then run_unit fuel vm (mu_layout m) (mu_body m) else (vm, [], SOk) in
       match s with
       | SOk =>
           (* vm.sync_globals_to_hashmap(names); register_exports: set_global(alias, get_global(name)) *)
-          let vm2 := if MODULE_SYNCS_BEFORE_EXPORTS then sync_loaded vm1 else vm1 in
+          let vm2 := if MODULE_SYNCS_BEFORE_EXPORTS && mu_run m then sync_loaded vm1 else vm1 in
           let vm3 := fold_left (fun v e => set_name v (fst e) (glookup (gmap v) (snd e))) (mu_exports m) vm2 in
           let '(vm4, out2, s2) := load_modules fuel vm3 r in (vm4, out ++ out2, s2)
       | _ => (vm1, out, s)
@@ -407,6 +417,7 @@ Definition mstep (fuel : nat) (d : dstate) (st : step) : dstate * list Z * statu
           end
       | _ => (d, [], SErr)
       end
+  | SSet n v => (mkD (set_name (d_vm d) n v) (d_known d) (d_mut d), [], SOk)
   end.
 
 (* ---- the same session on the by-name store ------------------------------------------------------- *)
@@ -418,7 +429,7 @@ Fixpoint load_modules_s (fuel : nat) (T : list N) (s : sstate) (W : list N) (ms 
   match ms with
   | [] => (s, W, [], XOk)
   | m :: r =>
-      let '(s1, W1, out, st) := exec_s fuel 1 T (mu_layout m) VNull s W (mu_body m) in
+      let '(s1, W1, out, st) := if mu_run m then exec_s fuel 1 T (mu_layout m) VNull s W (mu_body m) else (s, W, [], XOk) in
       match st with
       | XOk =>
           if existsb (fun e => memb (snd e) T) (mu_exports m) then (s1, W1, out, XTaint) else
@@ -468,6 +479,7 @@ Definition xstep (fuel : nat) (x : xstate) (st : step) : xstate * list Z * xstat
           end
       | _ => (x, [], XErr)
       end
+  | SSet n v => (mkX (mkS ((n, v) :: s_store (x_s x)) (s_heap (x_s x)) (s_next (x_s x))) (x_taint x) (x_known x) (x_mut x), [], XOk)
   end.
 
 Fixpoint msession (fuel : nat) (d : dstate) (steps : list step) : list (list Z * status) :=
@@ -509,15 +521,13 @@ Fixpoint nodupb (L : layout) : bool :=
   | None :: r => nodupb r
   end.
 
-Definition wf_munit (m : munit) : bool :=
-  nodupb (mu_layout m)
-  && (match mu_exports m with [] => true | _ => negb (layout_eqb (mu_layout m) []) end)
-  && forallb (fun e => negb (in_layout (fst e) (mu_layout m)) || (fst e =? snd e)) (mu_exports m).
+Definition wf_munit (m : munit) : bool := nodupb (mu_layout m).
 
 Definition wf_step (st : step) : bool :=
   match st with
   | SInput imports _ L _ _ _ => nodupb L && forallb wf_munit imports
   | SHost _ _ _ => true
+  | SSet _ _ => true
   end.
 
 Definition wf_codeb (C : code) : bool := forallb (fun e => nodupb (fd_layout (snd e))) C.
